@@ -26,19 +26,20 @@ type KV struct {
 }
 
 type Case struct {
-	Kind  string  `json:"kind"` // match | site | sil | print | parse
-	Show  string  `json:"show,omitempty"`
-	MSS   [][]M   `json:"mss,omitempty"`      // match
-	LS    []KV    `json:"ls,omitempty"`       // match, site
-	M     *M      `json:"m,omitempty"`        // site
-	MS    []M     `json:"ms,omitempty"`       // print
-	Input []byte  `json:"input,omitempty"`    // parse
-	Src   string  `json:"src,omitempty"`      // parse: which generator produced the input
-	Sils  [][][]M `json:"sils,omitempty"`     // siln: several silences, each a list of matcher sets
-	LSS   [][]KV  `json:"lss,omitempty"`      // api: the alerts of one request, in request order; cfg: the targets
-	RSrc  []M     `json:"rule_src,omitempty"` // cfg: source side of the inhibition rule
-	RTgt  []M     `json:"rule_tgt,omitempty"` // cfg: target side
-	Rt    []M     `json:"route,omitempty"`    // cfg: the child route's matchers
+	Kind  string   `json:"kind"` // match | site | sil | print | parse
+	Show  string   `json:"show,omitempty"`
+	MSS   [][]M    `json:"mss,omitempty"`      // match
+	LS    []KV     `json:"ls,omitempty"`       // match, site
+	M     *M       `json:"m,omitempty"`        // site
+	MS    []M      `json:"ms,omitempty"`       // print
+	Input []byte   `json:"input,omitempty"`    // parse
+	Src   string   `json:"src,omitempty"`      // parse: which generator produced the input
+	Sils  [][][]M  `json:"sils,omitempty"`     // siln: several silences, each a list of matcher sets
+	LSS   [][]KV   `json:"lss,omitempty"`      // api: the alerts of one request, in request order; cfg: the targets
+	RSrc  []M      `json:"rule_src,omitempty"` // cfg: source side of the inhibition rule
+	RTgt  []M      `json:"rule_tgt,omitempty"` // cfg: target side
+	Rt    []M      `json:"route,omitempty"`    // cfg: the child route's matchers
+	Args  []string `json:"args,omitempty"`     // amtool: matcher texts given to the real command line
 }
 
 func showM(m M) string {
@@ -76,6 +77,8 @@ func TestCheck(t *testing.T) {
 			runAPI(t, run, c)
 		case "cfg":
 			runCfg(t, run, c)
+		case "amtool":
+			runAmtool(t, run, c)
 		case "print":
 			runPrint(run, c)
 		case "parse":
@@ -97,6 +100,7 @@ const rule = "match: 1-3 matcher lists x label sets over small name/value/patter
 	"api: one GET /api/v2/alerts and one /alerts/groups request through the real handler over 2-4 alerts with differing label names, in the given and the reverse order, each alert's verdict compared; " +
 	"regexp shapes (literal, .*, .+, lit.*, .*lit, .*lit.*, ...) against values with newlines / CR / control characters / empty in every semantics case; " +
 	"cfg: a YAML configuration with one inhibition rule and one child route whose matchers are written as source_matchers/target_matchers/matchers and as the deprecated source_match, source_match_re, target_match, target_match_re, match, match_re (mixed), loaded by config.Load; both sides of inhibit.NewInhibitRule on the source alert and on 2-4 targets, the real Inhibitor (source alert firing, equal = []) asked Mutes for each target, dispatch.NewRoute matching each target; " +
+	"amtool: the REAL amtool command line with default flags (re-executed test binary into cli.Execute; the child sets up its own parser mode) given matcher texts that only the UTF-8 parser accepts, that only the classic parser accepts, that both or neither accept: silence add against an in-process API + store (stored matcher = the server's fallback-mode parse of the same text), silence query, check-config and config routes test on a configuration file with those matchers (accepted iff the server accepts; same receivers as dispatch); " +
 	"print: matcher lists over an alphabet rich in quotes, backslashes, newlines, braces, commas, operators, blanks, NUL, multi-byte and invalid UTF-8 -> String() -> every parser; " +
 	"list stress: 2-4 matcher lists whose non-last values end in one or two backslashes or carry a quote / escaped quote / escaped backslash right before the separating comma, printed then parsed in every mode, plus raw lists of the same shapes (histogram classic_split_stress); " +
 	"parse: raw inputs (grammar-directed + mutated seeds) through labels.ParseMatcher(s), parse.Matcher(s), compat.Matcher(s) in classic/utf8-strict/fallback mode; " +
